@@ -1,1 +1,152 @@
 //! Reference models for the plist monitors.
+//!
+//! `views` is the reference for C15: ONE fold over the entry sequence,
+//! written from the statement of C15 (not from the library's four separately
+//! written state machines):
+//!
+//! * a file entry is *kept* unless an `@ignore` occurs somewhere between it
+//!   and the preceding file entry (or the start); kept files, in order, are
+//!   `files()`;
+//! * `files_prefixed()` holds the same files, each prefixed with the most
+//!   recent `@cwd` directory (empty if none yet) plus `/` unless the
+//!   directory already ends in one;
+//! * `install_cmds()` = kept files + every @cwd/@exec/@mode/@owner/@group/
+//!   @pkgdir entry, `uninstall_cmds()` = kept files + every @cwd/@unexec/
+//!   @mode/@owner/@group/@pkgdir/@dirrm entry, in original order;
+//! * depends / build_depends / conflicts / pkgdirs / pkgrmdirs: every entry
+//!   of the kind in order; pkgname / display: the first; is_preserve: an
+//!   `@option preserve` exists.
+//!
+//! `key` is an independent notion of entry equality (kind tag + payload
+//! bytes) so that the monitors need not trust the library's `PartialEq`
+//! when deciding what *they* consider equal.
+
+use pkgsrc::plist::{PlistEntry, PlistOption};
+use std::ffi::OsStr;
+use std::os::unix::ffi::OsStrExt;
+
+/// (kind tag, payload bytes or None).
+pub type Key = (u8, Option<Vec<u8>>);
+
+pub fn key(e: &PlistEntry) -> Key {
+    use PlistEntry as E;
+    let o = |s: &OsStr| Some(s.as_bytes().to_vec());
+    let s = |s: &str| Some(s.as_bytes().to_vec());
+    #[allow(unreachable_patterns)]
+    match e {
+        E::File(a) => (0, o(a)),
+        E::Cwd(a) => (1, o(a)),
+        E::Exec(a) => (2, o(a)),
+        E::UnExec(a) => (3, o(a)),
+        E::Mode(a) => (4, a.as_deref().and_then(s)),
+        E::PkgOpt(PlistOption::Preserve) => (5, None),
+        E::Owner(a) => (6, a.as_deref().and_then(s)),
+        E::Group(a) => (7, a.as_deref().and_then(s)),
+        E::Comment(a) => (8, a.as_deref().and_then(o)),
+        E::Ignore => (9, None),
+        E::Name(a) => (10, s(a)),
+        E::PkgDir(a) => (11, o(a)),
+        E::DirRm(a) => (12, o(a)),
+        E::Display(a) => (13, o(a)),
+        E::PkgDep(a) => (14, s(a)),
+        E::BldDep(a) => (15, s(a)),
+        E::PkgCfl(a) => (16, s(a)),
+        _ => (255, None),
+    }
+}
+
+pub fn keys<'a, I: IntoIterator<Item = &'a PlistEntry>>(es: I) -> Vec<Key> {
+    es.into_iter().map(key).collect()
+}
+
+/// Reference views of an entry sequence.
+#[derive(Debug, Default, PartialEq, Eq)]
+pub struct Views {
+    pub files: Vec<Vec<u8>>,
+    pub files_prefixed: Vec<Vec<u8>>,
+    /// indices into the entry sequence
+    pub install: Vec<usize>,
+    pub uninstall: Vec<usize>,
+    pub depends: Vec<String>,
+    pub build_depends: Vec<String>,
+    pub conflicts: Vec<String>,
+    pub pkgdirs: Vec<Vec<u8>>,
+    pub pkgrmdirs: Vec<Vec<u8>>,
+    pub pkgname: Option<String>,
+    pub display: Option<Vec<u8>>,
+    pub preserve: bool,
+    // statistics for the evidence (not compared)
+    pub ignored_files: usize,
+    pub cwd_changes: usize,
+}
+
+pub fn views(entries: &[&PlistEntry]) -> Views {
+    use PlistEntry as E;
+    let mut v = Views::default();
+    // an @ignore has been seen since the preceding file entry (or the start)
+    let mut ignore_pending = false;
+    // most recent @cwd directory, empty if none yet
+    let mut prefix: Vec<u8> = vec![];
+    for (i, e) in entries.iter().enumerate() {
+        #[allow(unreachable_patterns)]
+        match *e {
+            E::File(f) => {
+                if ignore_pending {
+                    v.ignored_files += 1;
+                } else {
+                    v.files.push(f.as_bytes().to_vec());
+                    let mut p = prefix.clone();
+                    if p.last() != Some(&b'/') {
+                        p.push(b'/');
+                    }
+                    p.extend_from_slice(f.as_bytes());
+                    v.files_prefixed.push(p);
+                    v.install.push(i);
+                    v.uninstall.push(i);
+                }
+                ignore_pending = false;
+            }
+            E::Ignore => ignore_pending = true,
+            E::Cwd(d) => {
+                if d.as_bytes() != &prefix[..] {
+                    v.cwd_changes += 1;
+                }
+                prefix = d.as_bytes().to_vec();
+                v.install.push(i);
+                v.uninstall.push(i);
+            }
+            E::Exec(_) => v.install.push(i),
+            E::UnExec(_) => v.uninstall.push(i),
+            E::Mode(_) | E::Owner(_) | E::Group(_) => {
+                v.install.push(i);
+                v.uninstall.push(i);
+            }
+            E::PkgDir(d) => {
+                v.pkgdirs.push(d.as_bytes().to_vec());
+                v.install.push(i);
+                v.uninstall.push(i);
+            }
+            E::DirRm(d) => {
+                v.pkgrmdirs.push(d.as_bytes().to_vec());
+                v.uninstall.push(i);
+            }
+            E::PkgDep(s) => v.depends.push(s.clone()),
+            E::BldDep(s) => v.build_depends.push(s.clone()),
+            E::PkgCfl(s) => v.conflicts.push(s.clone()),
+            E::Name(s) => {
+                if v.pkgname.is_none() {
+                    v.pkgname = Some(s.clone());
+                }
+            }
+            E::Display(d) => {
+                if v.display.is_none() {
+                    v.display = Some(d.as_bytes().to_vec());
+                }
+            }
+            E::PkgOpt(PlistOption::Preserve) => v.preserve = true,
+            E::Comment(_) => {}
+            _ => {}
+        }
+    }
+    v
+}
